@@ -18,8 +18,8 @@
                                           if self.getAttrNS(r[0],r[1]) is None: raise AttributeError   → `construct`
   Element.addElement          if check_grammar and self.allowed_children is not None:
                                   if element.qname not in self.allowed_children: raise IllegalChild    → `addElement`
-  Element.addText / addCDATA  if check_grammar and self.qname not in grammar.allows_text:
-                                  raise IllegalText                                                     → `addText`, `addCDATA`
+  Element.addText / addCDATA  if check_grammar and not self._allows_text():
+                                  raise IllegalText                                                     → `addText`, `addCDATA`, `allowsTextOf`
   Element.setAttribute        allowed_attrs = self.allowed_attributes()        # grammar.allowed_attributes.get(qname)
                               if allowed_attrs is None:
                                   if type(attr) == type(()): … setAttrNS …
@@ -80,8 +80,14 @@ def addElement (check : Bool) (parent child : Nat) : Except Err Unit :=
   | true, some l => if l.contains child then .ok () else .error .IllegalChild
   | _, _ => .ok ()
 
+/-- `Element._allows_text` (since /repo 9407dde):
+        return self.qname in grammar.allows_text or self.qname not in grammar.allowed_children
+    — an element without any allowed_children row (key missing, not an explicit `None`) is unknown to
+    the grammar and its text is let through, as its children are -/
+def allowsTextOf (e : Nat) : Bool := T.allowsText.contains e || (lookup T.allowedChildren e).isNone
+
 def addText (check : Bool) (e : Nat) : Except Err Unit :=
-  if check && !(T.allowsText.contains e) then .error .IllegalText else .ok ()
+  if check && !(allowsTextOf T e) then .error .IllegalText else .ok ()
 
 def addCDATA (check : Bool) (e : Nat) : Except Err Unit := addText T check e
 
